@@ -68,6 +68,22 @@ func H_nodeset() {
 	vObserve("got", got)
 	vAssert(ended, "iterator-terminates")
 	vCheckNodeSet("expr", cur, attr, got)
+	if vHasParam("reuse") {
+		// the same compiled expression selects the same set when it is used again
+		var again []int
+		ended2 := false
+		cls2 := vGuard(func() {
+			it := e.Select(vNav(doc, cur, attr))
+			again, ended2 = vDrain(it, 4*doc.N*(doc.A+1)+2)
+		})
+		vObserve("panic-class-second-use", cls2)
+		vAssert(cls2 == 0, "no-panic-second-use")
+		if cls2 == 0 {
+			vObserve("got-second-use", again)
+			vAssert(ended2, "iterator-terminates-second-use")
+			vCheckNodeSet("reuse", cur, attr, again)
+		}
+	}
 	if vHasParam("nodup") {
 		dup := false
 		for i := range got {
